@@ -6,12 +6,19 @@ let implode (l : char list) : string =
   List.iter (Buffer.add_char b) l;
   Buffer.contents b
 
+let mode = if Array.length Sys.argv > 1 then Sys.argv.(1) else "model"
+let run lines =
+  match mode with
+  | "model" -> Model.run_script lines
+  | "spec15" -> Model.run_spec15 lines
+  | m -> failwith ("unknown mode " ^ m)
+
 let flush_script acc =
   match acc with
   | [] -> ()
   | _ ->
       let lines = List.rev_map explode acc in
-      let out = Model.run_script lines in
+      let out = run lines in
       List.iter (fun l -> print_string (implode l); print_char '\n') out
 
 let () =
